@@ -140,13 +140,23 @@ def rt_dictionary(d):
 
 class AnyStream:
     """An arbitrary byte stream: `left` bytes remain (ghost counter); each read(1) yields the next (unconstrained) byte.
-    The engine replaces `read` by its contract (specs/tzio_models.install_any_stream)."""
+    The engine replaces `read` by its contract (specs/tzio_models.install_any_stream); a counter-model is turned into a
+    real instance (`data` = the model's bytes) so that it can be replayed on the real reader."""
 
-    def __init__(self, left):
+    def __init__(self, left, data=b"", pos=0):
         self.left = left
+        self.data = data
+        self.pos = pos
 
-    def read(self, n=-1):  # pragma: no cover - modelled
-        raise NotImplementedError
+    def read(self, n=-1):
+        if n != 1:
+            raise NotImplementedError
+        if self.left <= 0:
+            return b""
+        b = self.data[self.pos : self.pos + 1] or b"\0"
+        self.pos += 1
+        self.left -= 1
+        return b
 
 
 def reader_on(stream, pool=None):
@@ -170,4 +180,12 @@ def read_prim(stream, which):
         v = r._DateTimeZoneReader__read_int64()
     else:
         v = r.has_more_data
+    return (v, before - stream.left)
+
+
+def read_transition(stream, previous):
+    """read_zone_interval_transition on any stream: the value and the number of bytes consumed"""
+    r = reader_on(stream)
+    before = stream.left
+    v = r.read_zone_interval_transition(previous)
     return (v, before - stream.left)
